@@ -2,6 +2,7 @@ package scen
 
 import (
 	"fmt"
+	"golang.org/x/net/dns/dnsmessage"
 	"strings"
 	"testing"
 	"testing/synctest"
@@ -69,6 +70,22 @@ func RunCodec(t *testing.T, p *plan.Plan, keepLog int) *Result {
 					s.Probe("c02_codec_compared")
 					if d := diffMsg(l.orig, got); d != "" {
 						s.Fail("C02", "content-changed", "%s: decode + re-encode changed the message: %s", name, d)
+					}
+					// the proxy's own decoder and a second independent one
+					// (golang.org/x/net/dns/dnsmessage, the parser behind Go's
+					// resolver) have to accept the encoding as well
+					if m2, err := dnsmsg.UnpackMsg(buf[:n]); err != nil {
+						s.Fail("C02", "self-undecodable", "%s: the proxy's own decoder rejects the proxy's encoding (%v): %x", name, err, trunc(buf[:n], 96))
+					} else {
+						dnsmsg.ReleaseMsg(m2)
+					}
+					// (only for content that parser accepts at all: it refuses, for
+					// instance, labels that contain a dot; the reference layout of the
+					// same content - no compression - tells)
+					if xnetParse(refdns.Pack(l.orig, refdns.PackOpts{})) != nil {
+						s.Probe("c02_codec_xnet_content_skipped")
+					} else if err := xnetParse(buf[:n]); err != nil {
+						s.Fail("C02", "encoded-undecodable", "%s: golang.org/x/net/dns/dnsmessage rejects the proxy's encoding (%v): %x", name, err, trunc(buf[:n], 96))
 					}
 				}
 			}
@@ -220,4 +237,27 @@ func diffMsg(a, b *refdns.Msg) string {
 		}
 	}
 	return ""
+}
+
+// xnetParse runs golang.org/x/net/dns/dnsmessage over a whole message.  A
+// message the generator itself laid out in a way that parser refuses (its
+// input, not the proxy's output) is not passed here.
+func xnetParse(b []byte) error {
+	var p dnsmessage.Parser
+	if _, err := p.Start(b); err != nil {
+		return err
+	}
+	if _, err := p.AllQuestions(); err != nil {
+		return err
+	}
+	if _, err := p.AllAnswers(); err != nil {
+		return err
+	}
+	if _, err := p.AllAuthorities(); err != nil {
+		return err
+	}
+	if _, err := p.AllAdditionals(); err != nil {
+		return err
+	}
+	return nil
 }
